@@ -556,3 +556,75 @@ def mega(case, ctx):
     if ret is not out or cm.max_abs(out - (0.5 + case["weight"] * np.abs(exp) ** 2)) > 1e-12:
         raise Violation("C07.mega.insert", f"insert(weight={case['weight']}) into a {m}x{n} target differs from "
                                            f"target + weight*intensity")
+
+
+# --- user subclasses that redefine amplitude / opd as (stateful) properties ------------------------------------
+# (the documented extension mechanism: docs/user/advanced/extend.rst, "Redefining the amplitude, OPD, or mask
+# attributes"): multiplication must use what the plane reports at that moment
+
+
+class _StatefulPupil(lentil.Pupil):
+    def __init__(self, base_amp, base_opd, mask, pixelscale, which):
+        super().__init__(amplitude=base_amp, opd=base_opd, mask=mask, pixelscale=pixelscale, focal_length=2.0)
+        self.transmission, self.piston, self.which = 1.0, 0.0, which
+        self._base_amp, self._base_opd = np.array(base_amp, dtype=float), np.array(base_opd, dtype=float)
+
+    @property
+    def amplitude(self):
+        return self._base_amp * self.transmission if "amplitude" in self.which else self._amplitude
+
+    @amplitude.setter
+    def amplitude(self, value):
+        self._amplitude = np.asarray(value)
+
+    @property
+    def opd(self):
+        return self._base_opd + self.piston if "opd" in self.which else self._opd
+
+    @opd.setter
+    def opd(self, value):
+        self._opd = np.asarray(value)
+
+
+@hyp("C07", "subclass_properties", lambda tier: st.fixed_dictionaries(
+        {"shape": gen.shape2(4, 12).map(list), "seed": st.integers(0, 2**31 - 1),
+         "which": st.sampled_from(["amplitude", "opd", "amplitude+opd"]), "segmented": st.booleans(),
+         "states": st.lists(st.tuples(st.sampled_from([1.0, 0.25, 0.5, 2.0]), st.sampled_from([0.0, 0.1, -0.3])),
+                            min_size=1, max_size=4)}),
+     "a Pupil subclass whose amplitude and/or OPD are redefined as properties computed from its state (documented "
+     "extension mechanism): after every state change the product with a wavefront is amplitude*exp(2 pi i opd/lambda) "
+     "of what the plane reports", examples=(200, 800))
+def subclass_properties(case, ctx):
+    m, n = case["shape"]
+    rng = np.random.default_rng(case["seed"])
+    wl = 1e-6
+    yy, xx = np.mgrid[0:m, 0:n]
+    sup = ((yy - m / 2 + 0.5) ** 2 / (m / 2) ** 2 + (xx - n / 2 + 0.5) ** 2 / (n / 2) ** 2) <= 1.0
+    if sup.sum() < 4:
+        sup[:] = True
+    amp = rng.uniform(0.4, 1.0, size=(m, n)) * sup
+    opd = rng.normal(size=(m, n)) * 0.1 * wl * sup
+    if case["segmented"] and n >= 4:
+        mask = np.stack([sup * (xx < n // 2), sup * (xx >= n // 2)]).astype(int)
+        if any(s_.sum() < 2 for s_ in mask):
+            mask = sup.astype(int)
+    else:
+        mask = sup.astype(int)
+    ctx.tag("redefines:" + case["which"], "segmented" if np.ndim(mask) == 3 else "monolithic", f"states:{len(case['states'])}")
+    ctx.nontrivial_if(any(t != 1.0 or p != 0.0 for t, p in case["states"]))
+    with lentil_call("C07.subclass.build", "Pupil subclass"):
+        p = _StatefulPupil(amp.copy(), opd.copy(), mask.copy(), 1e-3, case["which"])
+    for i, (t, pist) in enumerate([(1.0, 0.0)] + [tuple(x) for x in case["states"]]):
+        p.transmission, p.piston = t, pist * wl
+        with lentil_call("C07.subclass.multiply", f"multiply in state {i} (transmission {t}, piston {pist} waves)"):
+            w = lentil.Wavefront(wl) * p
+            if any(np.ndim(f.data) == 2 and f.data.size == 1 for f in w.data):
+                raise Skip("single_sample_intermediate_field(known)")
+            got = w.field
+        exp = np.where(sup, np.asarray(p.amplitude, dtype=float) * np.exp(2j * np.pi * np.asarray(p.opd, dtype=float) / wl), 0)
+        if got.shape != exp.shape or cm.max_abs(got - exp) > 1e-13 * max(cm.max_abs(exp), 1e-300):
+            raise Violation("C07.subclass.field", f"state {i} (transmission {t}, piston {pist} waves): the product is not "
+                                                  f"amplitude*exp(2 pi i opd/lambda) of the attributes the subclass reports "
+                                                  f"(redefined: {case['which']})")
+        if cm.max_abs(w.intensity - np.abs(exp) ** 2) > 1e-12 * max(cm.max_abs(exp) ** 2, 1e-300):
+            raise Violation("C07.subclass.intensity", "intensity != |field|^2 for a subclass with redefined attributes")
